@@ -1,8 +1,8 @@
 package props
 
 import (
-	"sort"
 	"fmt"
+	"sort"
 	"strings"
 
 	"github.com/aml-org/amf-custom-validator/internal/parser/path"
@@ -363,20 +363,34 @@ func C16(e *core.Env) {
 	}
 	// every place of a profile where a path is written: a string that is not a path is refused wherever it stands
 	{
-		pc := func(path string, ind string) string { return ind + "propertyConstraints:\n" + ind + "  " + yamlQuote(path) + ":\n" + ind + "    minCount: 1\n" }
+		pc := func(path string, ind string) string {
+			return ind + "propertyConstraints:\n" + ind + "  " + yamlQuote(path) + ":\n" + ind + "    minCount: 1\n"
+		}
 		okc := func(ind string) string { return pc("ex.ok", ind) }
 		positions := map[string]func(string) string{
-			"top":      func(x string) string { return pc(x, "    ") },
-			"if":       func(x string) string { return "    if:\n" + pc(x, "      ") + "    then:\n" + okc("      ") },
-			"then":     func(x string) string { return "    if:\n" + okc("      ") + "    then:\n" + pc(x, "      ") },
-			"else":     func(x string) string { return "    if:\n" + okc("      ") + "    then:\n" + okc("      ") + "    else:\n" + pc(x, "      ") },
-			"not":      func(x string) string { return "    not:\n" + pc(x, "      ") },
-			"and-2nd":  func(x string) string { return "    and:\n      -\n" + okc("        ") + "      -\n" + pc(x, "        ") },
-			"or-1st":   func(x string) string { return "    or:\n      -\n" + pc(x, "        ") + "      -\n" + okc("        ") },
-			"nested":   func(x string) string { return "    propertyConstraints:\n      ex.kid:\n        nested:\n" + pc(x, "          ") },
-			"atLeast":  func(x string) string { return "    propertyConstraints:\n      ex.kid:\n        atLeast:\n          count: 1\n          validation:\n" + pc(x, "            ") },
-			"lessThan": func(x string) string { return "    propertyConstraints:\n      ex.ok:\n        lessThanProperty: " + yamlQuote(x) + "\n" },
-			"else-not": func(x string) string { return "    if:\n" + okc("      ") + "    then:\n" + okc("      ") + "    else:\n      not:\n" + pc(x, "        ") },
+			"top":  func(x string) string { return pc(x, "    ") },
+			"if":   func(x string) string { return "    if:\n" + pc(x, "      ") + "    then:\n" + okc("      ") },
+			"then": func(x string) string { return "    if:\n" + okc("      ") + "    then:\n" + pc(x, "      ") },
+			"else": func(x string) string {
+				return "    if:\n" + okc("      ") + "    then:\n" + okc("      ") + "    else:\n" + pc(x, "      ")
+			},
+			"not": func(x string) string { return "    not:\n" + pc(x, "      ") },
+			"and-2nd": func(x string) string {
+				return "    and:\n      -\n" + okc("        ") + "      -\n" + pc(x, "        ")
+			},
+			"or-1st": func(x string) string { return "    or:\n      -\n" + pc(x, "        ") + "      -\n" + okc("        ") },
+			"nested": func(x string) string {
+				return "    propertyConstraints:\n      ex.kid:\n        nested:\n" + pc(x, "          ")
+			},
+			"atLeast": func(x string) string {
+				return "    propertyConstraints:\n      ex.kid:\n        atLeast:\n          count: 1\n          validation:\n" + pc(x, "            ")
+			},
+			"lessThan": func(x string) string {
+				return "    propertyConstraints:\n      ex.ok:\n        lessThanProperty: " + yamlQuote(x) + "\n"
+			},
+			"else-not": func(x string) string {
+				return "    if:\n" + okc("      ") + "    then:\n" + okc("      ") + "    else:\n      not:\n" + pc(x, "        ")
+			},
 		}
 		pnames := []string{}
 		for n := range positions {
